@@ -20,6 +20,7 @@ Tie: `guard` / `exec` / `adj` / `ids` lines of the Lean driver `adjacency`
 (model `Adjacency.lean`; `exec` runs the statement list regenerated from
 executioner.py by harness/gen/epr_guards.py)."""
 import itertools
+import os
 import random
 
 from .. import core
@@ -390,9 +391,9 @@ def run(ctx):
     res = core.Result()
     rng = ctx.rng
     res.rule = ("exhaustive: every topology over 1..3 nodes (None, or each node absent / mapped to any subset of the "
-                "nodes incl. itself) x every issuer x every remote id 0..n (n = unknown) [quick: n=3 topologies sampled "
-                "down to a budget unless VERIF_C12_FULL=1; thorough: all]; random: topologies over 4-5 nodes (absent "
-                "nodes, asymmetric lists, self-loops, stranger names) x all ordered pairs + self + unknown ids; one "
+                "nodes incl. itself: 4 + 26 + 730) x every issuer x every remote id 0..n (n = unknown; thorough: one "
+                "more unknown id); random: topologies over 4-5 nodes (absent nodes, asymmetric lists, self-loops, "
+                "stranger names as keys and neighbours) x all ordered pairs + self + two unknown ids; one "
                 "real network per topology, one application per request; non-trivial = a topology is configured and "
                 "the id is known; distinct by (names, topology, issuer, id)")
     lines, expect = [], []
@@ -431,9 +432,9 @@ def run(ctx):
                   {"names": names, "topology": topology, "me": me, "other": other})
                 res.count("is_adjacent")
         # -- requests through the real executioner
-        rids = list(range(n)) + [n, n + rng.choice([1, 2, 7, 250])]
-        if not ctx.thorough and n >= 4:
-            rids = rids[:-1] if rng.random() < 0.5 else rids[:n] + rids[-1:]
+        rids = list(range(n)) + [n]                        # every node id, and the first unknown one
+        if n >= 4 or ctx.thorough:
+            rids.append(n + rng.choice([1, 2, 7, 250]))    # a further unknown id
         for issuer in names:
             for rid in rids:
                 if fresh_each and bench.next_app > 0:
@@ -481,13 +482,13 @@ def run(ctx):
         return res
 
     # ---- exhaustive small networks
-    full3 = ctx.thorough or bool(int(__import__("os").environ.get("VERIF_C12_FULL", "0")))
+    full3 = ctx.thorough or os.environ.get("VERIF_C12_SAMPLE", "") == ""
     for n in (1, 2, 3):
         names = pick_names(rng, n)
         topos = list(all_topologies(names))
         if n == 3 and not full3:
-            # quick tier: a sample of the 729 dicts (every (node, absent / subset) option occurs ~30 times) plus None
-            topos = [None] + rng.sample(topos[1:], ctx.scale(280, len(topos) - 1))
+            # debugging aid only (VERIF_C12_SAMPLE=k): k of the 729 dicts plus None
+            topos = [None] + rng.sample(topos[1:], min(int(os.environ["VERIF_C12_SAMPLE"]), len(topos) - 1))
         for t in topos:
             do_topology(names, t)
         res.count("topologies-n%d" % n, len(topos))
